@@ -16,7 +16,7 @@ from ..gen import COSTS, STOCK_KINDS, gen_criterion, gen_derivative, gen_hedger,
 from ..world import DT, HAS_VOL, OPTION_KINDS, RecModel, World, abstract_state, cast_module_outputs
 
 ID = "C14"
-QUICK_RUNS = 320
+QUICK_RUNS = 400
 RULE = ("Seeded float64 worlds (stock kind, derivative kind, features with/without prev_hedge, smooth model kind, H in {1,2}, cost zero / "
         "positive, one of 8 criteria) with a short history (simulate, optional one-epoch fit, hedge on another batch) followed by "
         "finite-difference checks on frozen buffers and on compute_loss under RNG replay, the per-step graph monitor and the no-graph "
